@@ -81,6 +81,12 @@ type Graph struct {
 	Flows []*Flow `json:"flows"`
 	// DataObjects are declared as <dataObject id=do_name name=name/> (id and name differ).
 	DataObjects []string `json:"dataObjects,omitempty"`
+	// DataObjectBodies: JSON bodies (olive:dataObjectBody) of declared data
+	// objects, by name; a name listed here need not be in DataObjects.
+	DataObjectBodies map[string]string `json:"dataObjectBodies,omitempty"`
+	// Props are integer olive properties declared on the process itself
+	// (conditions read them with getProp(name)).
+	Props map[string]int64 `json:"props,omitempty"`
 }
 
 // Program is a complete generated definitions document with one process.
@@ -264,6 +270,18 @@ func (p *Program) XML() string {
 		pid = "Proc_1"
 	}
 	fmt.Fprintf(&sb, `<bpmn:process id="%s" isExecutable="true">`+"\n", pid)
+	if len(p.G.Props) > 0 {
+		sb.WriteString("<bpmn:extensionElements><olive:properties>")
+		names := make([]string, 0, len(p.G.Props))
+		for n := range p.G.Props {
+			names = append(names, n)
+		}
+		sort.Strings(names)
+		for _, n := range names {
+			fmt.Fprintf(&sb, `<olive:property name="%s" value="%d" type="integer"/>`, n, p.G.Props[n])
+		}
+		sb.WriteString("</olive:properties></bpmn:extensionElements>\n")
+	}
 	pm := &perm{s: uint64(p.DeclSeed)}
 	writeGraph(&sb, p.G, p, pm)
 	sb.WriteString("</bpmn:process>\n")
@@ -346,7 +364,13 @@ func writeGraph(sb *strings.Builder, g *Graph, p *Program, pm *perm) {
 		parts = append(parts, flowXML(f, p.DefaultLang))
 	}
 	for _, d := range g.DataObjects {
+		if _, withBody := g.DataObjectBodies[d]; withBody {
+			continue
+		}
 		parts = append(parts, fmt.Sprintf(`<bpmn:dataObject id="do_%s" name="%s"/>`+"\n", d, d))
+	}
+	for _, d := range sortedKeysS(g.DataObjectBodies) {
+		parts = append(parts, fmt.Sprintf(`<bpmn:dataObject id="do_%s" name="%s"><bpmn:extensionElements><olive:dataObjectBody><![CDATA[%s]]></olive:dataObjectBody></bpmn:extensionElements></bpmn:dataObject>`+"\n", d, d, g.DataObjectBodies[d]))
 	}
 	if p.DeclSeed != 0 {
 		shuffle(pm, parts)
@@ -476,4 +500,13 @@ func nodeXML(n *Node, p *Program, pm *perm) string {
 	}
 	fmt.Fprintf(&sb, "</bpmn:%s>\n", el)
 	return sb.String()
+}
+
+func sortedKeysS(m map[string]string) []string {
+	out := make([]string, 0, len(m))
+	for k := range m {
+		out = append(out, k)
+	}
+	sort.Strings(out)
+	return out
 }
